@@ -3,6 +3,7 @@
 package harness
 
 import (
+	"encoding/json"
 	"path/filepath"
 	"testing"
 
@@ -53,4 +54,57 @@ func TestWindowedRandom(t *testing.T) {
 				"est": wl.EstimatedLimit(), "dest": del.EstimatedLimit()})
 		}
 	}
+}
+
+// windowedSUT drives a real WindowedLimit through the transitions of spec/WindowedMC.tla.
+type windowedSUT struct {
+	wl  *limit.WindowedLimit
+	del *ScriptedLimit
+}
+
+func (s *windowedSUT) applyRaw(raw json.RawMessage) (any, error) {
+	var op struct {
+		T        int  `json:"t"`
+		Rtt      int  `json:"rtt"`
+		Inflight int  `json:"inflight"`
+		Drop     bool `json:"drop"`
+	}
+	if err := json.Unmarshal(raw, &op); err != nil {
+		return nil, err
+	}
+	before := len(s.del.Samples)
+	s.wl.OnSample(int64(op.T)*100e6, int64(op.Rtt), op.Inflight, op.Drop)
+	out := []J{}
+	for _, sm := range s.del.Samples[before:] {
+		ns := sm["rtt"].(int64) * int64(tickDur)
+		if rem, ok := sm["rtt_ns_remainder"]; ok {
+			ns += rem.(int64)
+		}
+		out = append(out, J{"rtt": ns, "inflight": sm["inflight"], "drop": sm["drop"]})
+	}
+	return J{"out": out}, nil
+}
+func (s *windowedSUT) observe() any { return J{"nclosed": 0} }
+
+// TestWindowedReplay: model -> code replay of the Windowed contract graph.
+func TestWindowedReplay(t *testing.T) {
+	files, _ := filepath.Glob(filepath.Join(filepath.Dir(inFile(t, "x")), "windowed_*.ndjson"))
+	var reps []*gReport
+	for _, f := range files {
+		rep := replayGraph(t, f, func(raw json.RawMessage) (sut, error) {
+			var c struct{ WSize, Threshold int }
+			if err := json.Unmarshal(raw, &c); err != nil {
+				return nil, err
+			}
+			del := &ScriptedLimit{est: 5}
+			wl, err := limit.NewWindowedLimit("w", 100e6, 100e6, int32(c.WSize), int64(c.Threshold), del, nil)
+			if err != nil {
+				return nil, err
+			}
+			return &windowedSUT{wl: wl, del: del}, nil
+		})
+		t.Logf("%s: %s", filepath.Base(f), rep)
+		reps = append(reps, rep)
+	}
+	writeJSON(t, filepath.Join(outDir(t), "windowed_replay.json"), reps)
 }
